@@ -89,7 +89,7 @@ PROPS = {
     },
     'C18': {
         'streams': [{'name': 'c18', 'quick': 6, 'thorough': 80}],
-        'assumptions': ['Document.Unmarshal (encoding/json with struct tags) is not modelled: covered by the harness only'],
+        'assumptions': ['Document.Unmarshal: clover\'s type-directed renaming is transcribed; the encoding/json round trip into a typed target is modelled by contract (Model/Unmarshal.v jdecode) inside the domain rt_ty/type_ok (ASCII names and strings, times with year 0..9999 and whole-minute offsets, finite floats, no []byte, json names distinct up to case); outside it the model answers undetermined and only the direct oracles apply'],
     },
     'C19': {
         'streams': [{'name': 'json', 'quick': 12, 'thorough': 150, 'args': ['--backend', 'all']}],
@@ -120,7 +120,7 @@ NOTES = {
     'C15': {'technique': 'Coq proof that both cursor adapters meet the ordered-map cursor contract + store-level differential of bbolt / badger (memory, disk) and identical histories on all backends'},
     'C16': {'technique': 'Coq proof of the Boolean/operator/literal laws of the criteria evaluator + law-pair and model differential on Satisfy'},
     'C17': {'technique': 'Coq proof that a range scan visits exactly the in-range entries in order (both directions, all bound kinds) and of the range algebra + direct RangeIndex differential on both backends'},
-    'C18': {'technique': 'Coq proof of canonicity/idempotence/struct-tag/path laws of the Normalize model + reflect-built Go values differential'},
+    'C18': {'technique': 'Coq proof of canonicity/idempotence/struct-tag/path laws of the Normalize model and of the struct -> document -> Unmarshal round trip over a model of Go types + reflect-built Go values and reflect-filled struct differential'},
     'C19': {'technique': 'Coq proof of the JSON typing laws and of import/export transaction structure + export/import round trips and failure paths on both backends'},
     'C20': {'technique': 'Coq proof that every operation of the total model returns a declared result class in every state + recover() and deadlines around every public call of every stream'},
 }
